@@ -400,6 +400,7 @@ inductive Calls (inp : List Nat) : PExpr → Nat → PExpr → Nat → Prop wher
   | orNoBox_l {l r pos} : Calls inp (.orNoBox l r) pos l pos
   | orNoBox_r {l r pos e q} : run l inp pos = .soft e q → Calls inp (.orNoBox l r) pos r q
   | many {an e pos vs q} : Chain (run e inp) pos vs q → Calls inp (.many an e) pos e q
+  | manyC {mc an e pos vs q} : Chain (run e inp) pos vs q → Calls inp (.manyC mc an e) pos e q
   | manyCtx {an e pos vs q} : Chain (run e inp) pos vs q → Calls inp (.manyCtx an e) pos e q
   | filter {pr e pos} : Calls inp (.filter pr e) pos e pos
   | filterMap {f e pos} : Calls inp (.filterMap f e) pos e pos
@@ -468,6 +469,7 @@ theorem Calls.pos_le {inp : List Nat} {e : PExpr} {pos : Nat} {s : PExpr} {q : N
   | and_r h1 => exact ((run_mono inp _).ok _ _ _ hpos h1).2
   | orNoBox_r h1 => exact ((run_mono inp _).soft _ _ _ hpos h1).2
   | many hc => exact hc.le_len (run_mono inp _) hpos
+  | manyC hc => exact hc.le_len (run_mono inp _) hpos
   | manyCtx hc => exact hc.le_len (run_mono inp _) hpos
   | surround_m hl =>
     rcases hl with ⟨a, h1⟩ | ⟨_, x, h1⟩
@@ -541,7 +543,7 @@ def hasMFE : PExpr → Bool
   | .and _ l r | .or2 l r | .orNoBox l r | .delimited _ _ l r | .seq2 l r | .thenWith _ l r | .flatten l r
   | .iif _ l r => hasMFE l || hasMFE r
   | .or3 a b c | .surround _ a b c | .seq3 a b c => hasMFE a || hasMFE b || hasMFE c
-  | .many _ e | .manyCtx _ e | .filter _ e | .filterMap _ e | .peek e | .toOption e | .orDefault e
+  | .many _ e | .manyC _ _ e | .manyCtx _ e | .filter _ e | .filterMap _ e | .peek e | .toOption e | .orDefault e
   | .andThen _ e | .andThenErr _ e | .map _ e | .toFatal e | .withSoftErr _ _ e | .lazy e => hasMFE e
   | .seq4 a b c d => hasMFE a || hasMFE b || hasMFE c || hasMFE d
   | .seq5 a b c d e => hasMFE a || hasMFE b || hasMFE c || hasMFE d || hasMFE e
@@ -565,6 +567,8 @@ theorem Calls.fatal {inp : List Nat} {e : PExpr} {pos : Nat} {s : PExpr} {q c q'
   | orNoBox_l => exact ⟨c, by simp [run, orNoBoxP, hf], Or.inl rfl⟩
   | orNoBox_r h1 => exact ⟨c, by simp [run, orNoBoxP, h1, hf], Or.inl rfl⟩
   | many hc => exact ⟨c, by simp only [run]; exact manyP_fatal_at (run_mono inp _) hpos hc hf, Or.inl rfl⟩
+  | manyC hc =>
+    exact ⟨c, by simp only [run, manyCP_eq_fin, finP, manyP_fatal_at (run_mono inp _) hpos hc hf], Or.inl rfl⟩
   | manyCtx hc => exact ⟨c, by simp only [run]; exact manyP_fatal_at (run_mono inp _) hpos hc hf, Or.inl rfl⟩
   | filter => exact ⟨c, by simp [run, filterP, hf], Or.inl rfl⟩
   | filterMap => exact ⟨c, by simp [run, filterMapP, hf], Or.inl rfl⟩
